@@ -103,7 +103,8 @@ def generate(rng, tier):
                                 ([{}] if r.random() < 0.5 else [])
         elif kind == "drain":
             faults.append({"conn": r.choice(["client", "server"]), "nth": 0,
-                           "kind": r.choice(["drain_error", "drain_error", "write_eof_error", "close_error", "stall"]),
+                           # (no close() errors: asyncio transports never raise from close())
+                           "kind": r.choice(["drain_error", "drain_error", "write_eof_error", "stall"]),
                            "at_bytes": r.choice([0, 1, 50, 300]), "until": r.choice([0.5, 4.0])})
 
     policy = []
